@@ -1,0 +1,97 @@
+//go:build verif
+// +build verif
+
+package db
+
+import (
+	"sync"
+
+	"github.com/syndtr/goleveldb/leveldb"
+)
+
+// Verification hook for property C05 (build tag verif): every physical write
+// that reaches a LevelDB instance (Put, Delete, batch Write) is announced to a
+// gate right before it is performed. The gate may refuse it, which panics with
+// VerifC05Crash: the running operation stops right before that write ("process
+// death after the previous write"); the harness recovers, drops all in-memory
+// state and re-runs the node's start-up on what reached the store.
+// Without the tag verifC05Write is an empty function (verif_c05_hook_off.go);
+// the four call sites in leveldb.go / database.go are added lines only.
+
+// VerifC05Crash is the panic value of a refused write. The write is NOT performed.
+type VerifC05Crash struct {
+	File string
+	Op   string
+	Key  []byte
+}
+
+// VerifC05Gate is consulted before every physical write. file is the name the
+// LevelDB instance was registered under with VerifC05Name ("?" if none), op is
+// "put", "del" or "batch", key is the full key including the store prefix (nil
+// for a batch), n is 1 or the number of records in the batch. Returning false
+// refuses the write.
+var VerifC05Gate func(file, op string, key []byte, n int) bool
+
+var (
+	verifC05names = map[*leveldb.DB]string{}
+	verifC05lock  sync.Mutex
+)
+
+// VerifC05Name registers a name for the LevelDB instance below d
+// (*LDBDatabase or *PrefixedDatabase).
+func VerifC05Name(d Database, name string) {
+	verifC05lock.Lock()
+	defer verifC05lock.Unlock()
+	switch x := d.(type) {
+	case *LDBDatabase:
+		verifC05names[x.db] = name
+	case *PrefixedDatabase:
+		verifC05names[x.db.db] = name
+	}
+}
+
+func verifC05Write(h *leveldb.DB, op string, key []byte, n int) {
+	g := VerifC05Gate
+	if g == nil {
+		return
+	}
+	verifC05lock.Lock()
+	file, ok := verifC05names[h]
+	verifC05lock.Unlock()
+	if !ok {
+		file = "?"
+	}
+	if !g(file, op, key, n) {
+		panic(VerifC05Crash{File: file, Op: op, Key: append([]byte{}, key...)})
+	}
+}
+
+// VerifC05Overlay returns a Database whose writes go to a private in-memory
+// store and whose reads fall through to base. The block builder of the C05
+// harness commits the states of blocks it prepares into such an overlay, so
+// that preparing a block leaves nothing in the node's real state store.
+func VerifC05Overlay(base Database) Database {
+	m, _ := NewMemDatabase()
+	return &verifC05Overlay{MemDatabase: m, base: base}
+}
+
+type verifC05Overlay struct {
+	*MemDatabase
+	base Database
+}
+
+func (o *verifC05Overlay) Get(key []byte) ([]byte, error) {
+	if v, err := o.MemDatabase.Get(key); err == nil {
+		return v, nil
+	}
+	return o.base.Get(key)
+}
+
+func (o *verifC05Overlay) Has(key []byte) (bool, error) {
+	if ok, _ := o.MemDatabase.Has(key); ok {
+		return true, nil
+	}
+	return o.base.Has(key)
+}
+
+func (o *verifC05Overlay) Close() {}
